@@ -27,7 +27,7 @@ fn streams(t: Tier) -> Vec<StreamDef> {
         st("avp_inrange", t.n(40_000, 2_000_000, 100, 10_000), false),
         st("avp_limit", t.n(16 * 41 * 2, 16 * 41 * 8, 40, 16 * 41 * 2), true),
         st("msg", t.n(8_000, 300_000, 20, 2_000), false),
-        st("msg_limit", t.n(64, 1200, 1, 16), false),
+        st("msg_limit", t.n(96, 1600, 1, 32), false),
         st("hide_limit", t.n(4_000, 200_000, 20, 1_000), false),
     ]
 }
@@ -168,13 +168,17 @@ fn run(ctx: &mut Ctx) {
         "msg" => {
             let (max_avps, maxp) = if ctx.rng.chance(1, 10) { (70, 1017) } else { (10, 80) };
             let c = val::control(&mut ctx.rng, max_avps, maxp);
+            let mut c = c;
+            if ctx.rng.bool() {
+                c.length = ctx.rng.u16b();
+            }
             let total = 12 + c.avps.iter().map(|a| 6 + crate::spec::encode::payload(a).len()).sum::<usize>();
             ctx.rep.case(format!("{:?}", c).as_bytes(), !c.avps.is_empty());
             check_msg(ctx, &c, total);
         }
         "msg_limit" => {
             // totals on both sides of 65535
-            let deltas: [i64; 8] = [0, -7, 7, 8, 14, 1023, 2000, -1023];
+            let deltas: [i64; 8] = [0, -7, 7, 8, 21, 1023, 2000, -1023];
             let d = deltas[(ctx.idx % 8) as usize];
             let target = (65535i64 + d) as usize;
             let mut c = val::control_exact(&mut ctx.rng, target.min(65535));
@@ -184,7 +188,15 @@ fn run(ctx: &mut Ctx) {
                 c.avps.push(SAvp { attr: 7, hidden: false, body: SBody::Bytes(ctx.rng.bytes(extra - 6)) });
             }
             let total = 12 + c.avps.iter().map(|a| 6 + crate::spec::encode::payload(a).len()).sum::<usize>();
-            ctx.rep.case(format!("limit:{}:{}", total, ctx.idx).as_bytes(), true);
+            // the public length member is an input the encoder must not trust: stale, zero, the
+            // true size truncated to 16 bits (what a decoded-then-grown message carries), random
+            c.length = match ctx.rng.below(4) {
+                0 => 0,
+                1 => total as u16,
+                2 => c.length,
+                _ => ctx.rng.u16b(),
+            };
+            ctx.rep.case(format!("limit:{}:{}:{}", total, c.length, ctx.idx).as_bytes(), true);
             check_msg(ctx, &c, total);
         }
         "hide_limit" => {
